@@ -39,6 +39,9 @@ FitClauses(e) ==
    LET cpF == Col(e.samples, 2)  hF == Col(e.samples, 3)  sF == Col(e.samples, 4)
        cpS == Col(e.samples, 5)  hS == Col(e.samples, 6)  sS == Col(e.samples, 7)
        exact == e.src \in {"poly", "const", "zero"}
+       \* a sample is judged for recovery / tracking only if the fitted object's segment that holds it
+       \* carries at least 10 data points (samples[i][8] = 1; under-determined segments are outside the quantifier)
+       dense(i) == e.samples[i][8] = 1
        tracks == e.src = "statmech" /\ Band(e) # 0
        bd == Band(e)
    IN Chk(CloseIn(e.hfit, e.href, {Tiny}, 6), "AnchorH")
@@ -49,14 +52,14 @@ FitClauses(e) ==
       \cup Chk(\A i \in Idx(e.brk) : Lt(e.Tlo, e.brk[i]) /\ Lt(e.brk[i], e.Thi), "BreakInside")
       \cup Chk(Len(e.hl) = Len(e.brk), "BreakCount")
       \cup (IF exact
-            THEN Chk(\A i \in Idx(cpF) : CloseIn(cpF[i], cpS[i], SetOf(cpS) \cup {Tiny}, 6), "ExactRecoveryCp")
-                 \cup Chk(\A i \in Idx(hF) : CloseIn(hF[i], hS[i], SetOf(hS) \cup {Tiny}, 6), "ExactRecoveryH")
-                 \cup Chk(\A i \in Idx(sF) : CloseIn(sF[i], sS[i], SetOf(sS) \cup {Tiny}, 6), "ExactRecoveryS")
+            THEN Chk(\A i \in Idx(cpF) : dense(i) => CloseIn(cpF[i], cpS[i], SetOf(cpS) \cup {Tiny}, 6), "ExactRecoveryCp")
+                 \cup Chk(\A i \in Idx(hF) : dense(i) => CloseIn(hF[i], hS[i], SetOf(hS) \cup {Tiny}, 6), "ExactRecoveryH")
+                 \cup Chk(\A i \in Idx(sF) : dense(i) => CloseIn(sF[i], sS[i], SetOf(sS) \cup {Tiny}, 6), "ExactRecoveryS")
             ELSE {})
       \cup (IF tracks
-            THEN Chk(\A i \in Idx(cpF) : AbsLe(cpF[i], cpS[i], TrackCp(bd)), "TracksCp")
-                 \cup Chk(\A i \in Idx(hF) : AbsLe(hF[i], hS[i], TrackH(bd)), "TracksH")
-                 \cup Chk(\A i \in Idx(sF) : AbsLe(sF[i], sS[i], TrackS(bd)), "TracksS")
+            THEN Chk(\A i \in Idx(cpF) : dense(i) => AbsLe(cpF[i], cpS[i], TrackCp(bd)), "TracksCp")
+                 \cup Chk(\A i \in Idx(hF) : dense(i) => AbsLe(hF[i], hS[i], TrackH(bd)), "TracksH")
+                 \cup Chk(\A i \in Idx(sF) : dense(i) => AbsLe(sF[i], sS[i], TrackS(bd)), "TracksS")
             ELSE {})
 
 Clauses(e) == IF e.ev = "fit" THEN FitClauses(e) ELSE {"UnknownEvent"}
